@@ -188,3 +188,176 @@ theorem litTail_nbspGo (q : Char) (hq : isQuote q = true) (body : Str) :
       | cons x xs => rw [hn] at this; simp [litTail, hcq, this]
 
 end Ford.Show
+
+/-! ### the option `lower`: code is lower-cased, literals and placeholders are not -/
+
+namespace Ford.Show
+
+theorem lowerChar_of_isDigit (c : Char) (h : c.isDigit = true) : lowerChar c = c := by
+  simp only [Char.isDigit, Bool.and_eq_true, decide_eq_true_eq] at h
+  unfold lowerChar
+  have : ¬ ('A' ≤ c ∧ c ≤ 'Z') := by
+    intro ⟨h1, _⟩
+    have h2 := h.2
+    simp only [Char.le_def] at h1
+    revert h1 h2
+    generalize c.val = v
+    intro a b
+    have : ('A' : Char).val = 65 := by decide
+    rw [this] at b
+    exact absurd (UInt32.le_trans b a) (by decide)
+  simp [this]
+
+theorem map_id_of_mem (f : Char → Char) (s : Str) (h : ∀ c ∈ s, f c = c) : s.map f = s := by
+  induction s with
+  | nil => rfl
+  | cons c cs ih => simp [h c (by simp), ih (fun d hd => h d (by simp [hd]))]
+
+theorem lower_natStr (k : Nat) : lower (natStr k) = natStr k := by
+  have h : ∀ c ∈ natStr k, lowerChar c = c := by
+    intro c hc
+    apply lowerChar_of_isDigit
+    simp only [natStr, toString, Nat.repr, String.toList_ofList] at hc
+    exact Nat.isDigit_of_mem_toDigits (by decide) (by decide) hc
+  unfold lower
+  exact map_id_of_mem _ _ h
+
+theorem lower_append (a b : Str) : lower (a ++ b) = lower a ++ lower b := by simp [lower]
+
+theorem lower_maskOf (k : Nat) : lower (maskOf k) = maskOf k := by
+  have hq : lowerChar '"' = '"' := by decide
+  have h := lower_natStr k
+  simp only [lower] at h
+  simp [maskOf, lower, hq, h]
+
+theorem lower_segMasked (segs : List Seg) (k : Nat) :
+    lower (segMasked segs k) = segMasked (lowerSegs segs) k := by
+  fun_induction segMasked segs k <;> simp_all [lowerSegs, segMasked, lower_append, lower_maskOf]
+  all_goals simp_all [lower]
+
+theorem segStrings_lowerSegs (segs : List Seg) : segStrings (lowerSegs segs) = segStrings segs := by
+  fun_induction lowerSegs segs <;> simp_all [segStrings]
+
+theorem lowerChar_quote_ascii : ∀ m, m < 128 →
+    (isQuote (lowerChar (Char.ofNat m)) = isQuote (Char.ofNat m)) ∧
+    (lowerChar (Char.ofNat m) == '"') = (Char.ofNat m == '"') ∧
+    (lowerChar (Char.ofNat m) == '\'') = (Char.ofNat m == '\'') := by decide
+
+theorem lowerChar_big (c : Char) (h : ¬ c.toNat < 128) : lowerChar c = c := by
+  unfold lowerChar
+  have : ¬ ('A' ≤ c ∧ c ≤ 'Z') := by
+    intro ⟨_, h2⟩
+    apply h
+    have h3 : c.val.toNat ≤ ('Z' : Char).val.toNat := UInt32.le_iff_toNat_le.1 (Char.le_def.1 h2)
+    have h4 : ('Z' : Char).val.toNat = 90 := by decide
+    have h5 : c.toNat = c.val.toNat := rfl
+    omega
+  simp [this]
+
+theorem lowerChar_beq_quote (q c : Char) (hq : isQuote q = true) : (lowerChar c == q) = (c == q) := by
+  by_cases h : c.toNat < 128
+  · have := lowerChar_quote_ascii c.toNat h
+    rw [Char.ofNat_toNat] at this
+    simp [isQuote] at hq
+    rcases hq with rfl | rfl
+    · exact this.2.2
+    · exact this.2.1
+  · rw [lowerChar_big c h]
+
+theorem isQuote_lowerChar (c : Char) : isQuote (lowerChar c) = isQuote c := by
+  by_cases h : c.toNat < 128
+  · have := lowerChar_quote_ascii c.toNat h
+    rw [Char.ofNat_toNat] at this
+    exact this.1
+  · rw [lowerChar_big c h]
+
+theorem litEnd_lower (q : Char) (hq : isQuote q = true) (s : Str) : litEnd q (lower s) = litEnd q s := by
+  fun_induction litEnd q s <;> simp_all [lower, litEnd, lowerChar_beq_quote]
+
+def CutSt.lowered : CutSt → CutSt
+  | .lit n cur => .lit n (lower cur)
+  | st => st
+
+theorem verbExtra_lower (k : Nat) (cs : Str) : verbExtra k (lower cs) = verbExtra k cs := by
+  have h : natStr k ++ '"' :: lower cs = lower (natStr k ++ '"' :: cs) := by
+    have hq : lowerChar '"' = '"' := by decide
+    have := lower_natStr k
+    simp only [lower] at this
+    simp [lower, hq, this]
+  simp only [verbExtra, h, litEnd_lower '"' (by decide)]
+
+theorem lower_reverse (s : Str) : lower s.reverse = (lower s).reverse := by simp [lower]
+
+theorem lower_nil : lower [] = [] := rfl
+theorem lower_cons (c : Char) (cs : Str) : lower (c :: cs) = lowerChar c :: lower cs := rfl
+theorem lowered_scan : CutSt.scan.lowered = .scan := rfl
+theorem lowered_verb (n : Nat) : (CutSt.verb n).lowered = .verb n := rfl
+theorem lowered_lit (n : Nat) (cur : Str) : (CutSt.lit n cur).lowered = .lit n (lower cur) := rfl
+theorem lowered_ite (c : Prop) [Decidable c] (n : Nat) :
+    (if c then CutSt.scan else CutSt.verb n).lowered = (if c then CutSt.scan else CutSt.verb n) := by
+  split <;> rfl
+theorem lower_isEmpty (s : Str) : (lower s).isEmpty = s.isEmpty := by cases s <;> rfl
+
+theorem cutGo_lower (cs : Str) (k : Nat) (st : CutSt) :
+    cutGo (lower cs) k st.lowered = lowerAllSegs (cutGo cs k st) := by
+  fun_induction cutGo cs k st
+  · simp_all [lower_nil, lowered_lit, cutGo, lowerAllSegs]
+  · simp_all [lower_nil, lowered_lit, cutGo, lowerAllSegs, lower_isEmpty, lower_reverse]
+  · rename_i k st h
+    cases st <;> simp_all [lower_nil, lowered_scan, lowered_verb, cutGo, lowerAllSegs]
+  · rename_i c cs k skip cur h ih
+    rw [lowered_ite] at ih
+    simp only [beq_iff_eq] at ih
+    simp [lower_cons, lowered_lit, cutGo, h, lowerAllSegs, verbExtra_lower]
+    exact ⟨by simp [lower], by simpa [lower] using ih⟩
+  · rename_i c cs k skip cur h ih
+    have h' : ¬ skip ≤ 1 := by omega
+    simp only [lowered_lit, lower_cons] at ih ⊢
+    simp [cutGo, h', ih]
+  · rename_i c cs k n ih
+    rw [lowered_ite] at ih
+    simp [lower_cons, lowered_verb, cutGo, lowerAllSegs, ih]
+  · rename_i c cs k hq n hl ih
+    simp only [lowered_lit, lower_cons, lower_nil, lowered_scan] at ih ⊢
+    have hl' : litEnd (lowerChar c) (lower cs) = some n := by
+      have : lowerChar c = c := by
+        have := lowerChar_beq_quote c c hq
+        simpa using this
+      rw [this, litEnd_lower c hq, hl]
+    simp [cutGo, isQuote_lowerChar, hq, hl', ih]
+  · rename_i c cs k hq hl ih
+    simp only [lower_cons, lowered_scan] at ih ⊢
+    have hl' : litEnd (lowerChar c) (lower cs) = none := by
+      have : lowerChar c = c := by
+        have := lowerChar_beq_quote c c hq
+        simpa using this
+      rw [this, litEnd_lower c hq, hl]
+    simp [cutGo, isQuote_lowerChar, hq, hl', ih, lowerAllSegs]
+  · rename_i c cs k hq ih
+    simp only [lower_cons, lowered_scan] at ih ⊢
+    simp [cutGo, isQuote_lowerChar, hq, ih, lowerAllSegs]
+
+
+theorem lowerChar_idem_ascii : ∀ m, m < 128 →
+    lowerChar (lowerChar (Char.ofNat m)) = lowerChar (Char.ofNat m) := by decide
+
+theorem lowerChar_idem (c : Char) : lowerChar (lowerChar c) = lowerChar c := by
+  by_cases h : c.toNat < 128
+  · have := lowerChar_idem_ascii c.toNat h
+    rw [Char.ofNat_toNat] at this
+    exact this
+  · rw [lowerChar_big c h, lowerChar_big c h]
+
+theorem lower_segOriginal_lowerSegs (segs : List Seg) :
+    lower (segOriginal (lowerSegs segs)) = lower (segOriginal segs) := by
+  fun_induction lowerSegs segs <;> simp_all [segOriginal, lower_cons, lowerChar_idem, lower_append]
+
+theorem segStrings_lowerAllSegs (segs : List Seg) :
+    segStrings (lowerAllSegs segs) = (segStrings segs).map lower := by
+  fun_induction lowerAllSegs segs <;> simp_all [segStrings]
+
+theorem segMasked_lowerAllSegs (segs : List Seg) (k : Nat) :
+    segMasked (lowerAllSegs segs) k = segMasked (lowerSegs segs) k := by
+  fun_induction segMasked segs k <;> simp_all [lowerAllSegs, lowerSegs, segMasked]
+
+end Ford.Show
